@@ -2,6 +2,7 @@ import KyupyVerif.Proofs.Sdf
 import KyupyVerif.Proofs.SdfText
 import KyupyVerif.Proofs.SdfTextRaw
 import KyupyVerif.Proofs.SdfCirc
+import KyupyVerif.Proofs.SdfCircComplete
 /-! # C14 — every SDF delay lands on the right line, polarity and data set — none is lost
 
 Object of the theorems: the hand-written model `KV.Sdf` (Model/Sdf.lean) of `kyupy/sdf.py` *after* lark:
@@ -590,6 +591,153 @@ theorem interconnect_lands_circuit (C : NNet) (tl : PinIdx) (df : DelayFile) (pr
   simp only at hlook
   simp [icLineOf, hlook, Look.toOpt]
 
+/-! ### completeness of the INTERCONNECT look-up and every exit (audit finding 7, open item) -/
+
+/-- INTERCONNECT look-up (COMPLETENESS): on a well-formed dump, whenever the place the declarative description of
+`interconnect_lookup_spec` names exists — both ends resolve, `lo` leaves the origin pin and enters fork `f1`, `li` enters the
+destination pin and leaves fork `f2`, `f2` has one reader, `l` enters pin 0 of `f2`, and `f1 = f2` (sole line) or `l` is driven by
+`f1` (branch fork) — the look-up answers `l`: no entry that has a place is warned about, skipped or raised on. -/
+theorem interconnect_lookup_complete (C : NNet) (hwf : C.wf = true) (tl : PinIdx) (c1 : String) (p1 : Option String) (c2 : String)
+    (p2 : Option String) (l : Nat)
+    (h : ∃ i1 i2 q1 q2 lo li, cellOf C c1 = some i1 ∧ cellOf C c2 = some i2 ∧
+      endPin tl (C.net.node i1).kind p1 = some q1 ∧ endPin tl (C.net.node i2).kind p2 = some q2 ∧
+      (C.net.node i1).outPin q1 = some lo ∧ (C.net.node i2).inPin q2 = some li ∧
+      (C.net.node (C.net.line lo).reader).isFork = true ∧ (C.net.node (C.net.line li).driver).isFork = true ∧
+      (C.net.node (C.net.line li).driver).outs.length = 1 ∧
+      l < C.net.lines.size ∧ (C.net.line l).reader = (C.net.line li).driver ∧ (C.net.line l).rpin = 0 ∧
+      ((C.net.line lo).reader = (C.net.line li).driver ∨
+       ((C.net.line lo).reader ≠ (C.net.line li).driver ∧ (C.net.line l).driver = (C.net.line lo).reader))) :
+    icLook C tl c1 p1 c2 p2 = .line l :=
+  icLook_complete C (WF.of_wf hwf) tl c1 p1 c2 p2 l h
+
+/-- soundness and completeness together (`IcPlace` = the description above, Proofs/SdfCircComplete.lean): the look-up answers
+`l` EXACTLY when `l` is the place of the entry; and the place is unique -/
+theorem interconnect_lookup_iff (C : NNet) (hwf : C.wf = true) (tl : PinIdx) (c1 : String) (p1 : Option String) (c2 : String)
+    (p2 : Option String) (l : Nat) : icLook C tl c1 p1 c2 p2 = .line l ↔ IcPlace C tl c1 p1 c2 p2 l :=
+  icLook_line_iff C (WF.of_wf hwf) tl c1 p1 c2 p2 l
+
+theorem interconnect_place_unique (C : NNet) (hwf : C.wf = true) (tl : PinIdx) (c1 : String) (p1 : Option String) (c2 : String)
+    (p2 : Option String) (l l' : Nat) (h : IcPlace C tl c1 p1 c2 p2 l) (h' : IcPlace C tl c1 p1 c2 p2 l') : l = l' :=
+  IcPlace.unique (WF.of_wf hwf) h h'
+
+/-- `icLookX` = the look-up with the two kinds of warning kept apart (`warnPin`: "No line to annotate pin", `warnNoBranch`:
+"No branchfork to annotate interconnect delay"); forgetting the kind gives `icLook`, for every dump -/
+theorem interconnect_exit_refines (C : NNet) (tl : PinIdx) (c1 : String) (p1 : Option String) (c2 : String) (p2 : Option String) :
+    (icLookX C tl c1 p1 c2 p2).toLook = icLook C tl c1 p1 c2 p2 :=
+  icLookX_toLook C tl c1 p1 c2 p2
+
+/-- **Every exit of the INTERCONNECT look-up** on a well-formed dump with the structure `verilog.parse` builds (`icStructOKB`,
+decidable: every fork has exactly one, connected, input pin; lines at pins of cells come from / go to forks; evaluated by the
+check on every parsed circuit, tag `hyp:icStruct:*`).  With `IcEnds … i1 q1 i2 q2` = "both cell names are in `circuit.cells`
+(nodes `i1`, `i2`) and both pin names are in the library (indices `q1`, `q2`; 0 for a name without `/pin`)", `lo` = the line at
+output pin `q1` of `i1`, `li` = the line at input pin `q2` of `i2`, `f1` = reader of `lo`, `f2` = driver of `li`:
+* **answer `l`** ⇔ `f2` has one reader and (a) `f1 = f2` and `l = lo` (the signal fork of the origin pin feeds the destination
+  pin alone) or (b) `f1 ≠ f2`, `l` is THE input line of `f2` and is driven by `f1` (branch fork of the signal fork);
+* **warn "No branchfork"** ⇔ both pins connected, `f1 = f2`, and `f2` does not have exactly one reader slot (fan-out);
+* **warn "No line to annotate pin"** ⇔ both ends resolve and one of the two pins is open;
+* **raise** ⇔ an end does not resolve (`KeyError` / `AssertionError` of `pin_index`), or both pins are connected, `f1 ≠ f2`, and
+  `f2` is not a one-reader fork whose input line is driven by `f1` (the file names a connection the circuit does not have).
+The four right-hand sides are exhaustive and exclusive because they describe the value of one function. -/
+theorem interconnect_lookup_exits (C : NNet) (hwf : C.wf = true) (hst : icStructOKB C = true) (tl : PinIdx) (c1 : String)
+    (p1 : Option String) (c2 : String) (p2 : Option String) :
+    (∀ l, icLookX C tl c1 p1 c2 p2 = .line l ↔
+      ∃ i1 q1 i2 q2 lo li, IcEnds C tl c1 p1 c2 p2 i1 q1 i2 q2 ∧
+        (C.net.node i1).outPin q1 = some lo ∧ (C.net.node i2).inPin q2 = some li ∧
+        (C.net.node (C.net.line li).driver).outs.length = 1 ∧
+        (((C.net.line lo).reader = (C.net.line li).driver ∧ l = lo) ∨
+         ((C.net.line lo).reader ≠ (C.net.line li).driver ∧ FeedsFork C l (C.net.line li).driver ∧
+            (C.net.line l).driver = (C.net.line lo).reader))) ∧
+    (icLookX C tl c1 p1 c2 p2 = .warnNoBranch ↔
+      ∃ i1 q1 i2 q2 lo li, IcEnds C tl c1 p1 c2 p2 i1 q1 i2 q2 ∧
+        (C.net.node i1).outPin q1 = some lo ∧ (C.net.node i2).inPin q2 = some li ∧
+        (C.net.line lo).reader = (C.net.line li).driver ∧ (C.net.node (C.net.line li).driver).outs.length ≠ 1) ∧
+    (icLookX C tl c1 p1 c2 p2 = .warnPin ↔
+      ∃ i1 q1 i2 q2, IcEnds C tl c1 p1 c2 p2 i1 q1 i2 q2 ∧
+        ((C.net.node i1).outPin q1 = none ∨ (C.net.node i2).inPin q2 = none)) ∧
+    (icLookX C tl c1 p1 c2 p2 = .raise ↔
+      IcUnresolved C tl c1 p1 c2 p2 ∨
+      ∃ i1 q1 i2 q2 lo li, IcEnds C tl c1 p1 c2 p2 i1 q1 i2 q2 ∧
+        (C.net.node i1).outPin q1 = some lo ∧ (C.net.node i2).inPin q2 = some li ∧
+        (C.net.line lo).reader ≠ (C.net.line li).driver ∧
+        ¬ ((C.net.node (C.net.line li).driver).outs.length = 1 ∧
+            ∃ l, FeedsFork C l (C.net.line li).driver ∧ (C.net.line l).driver = (C.net.line lo).reader)) :=
+  ⟨icLookX_line_struct C (WF.of_wf hwf) hst tl c1 p1 c2 p2, icLookX_noBranch_struct C (WF.of_wf hwf) hst tl c1 p1 c2 p2,
+   icLookX_warnPin_iff C tl c1 p1 c2 p2, icLookX_raise_struct C (WF.of_wf hwf) hst tl c1 p1 c2 p2⟩
+
+/-- the exits WITHOUT the structural hypothesis (every dump, in terms of the fork decision `icFork` of the two lines): what
+`icStructOKB` removes from the list are the raises "a neighbour of a cell is not a fork" and "the fork has no first input". -/
+theorem interconnect_lookup_exits_any (C : NNet) (tl : PinIdx) (c1 : String) (p1 : Option String) (c2 : String) (p2 : Option String) :
+    (∀ x, x ≠ IcExit.raise → x ≠ IcExit.warnPin → (icLookX C tl c1 p1 c2 p2 = x ↔
+      ∃ i1 q1 i2 q2 lo li, IcEnds C tl c1 p1 c2 p2 i1 q1 i2 q2 ∧
+        (C.net.node i1).outPin q1 = some lo ∧ (C.net.node i2).inPin q2 = some li ∧ icFork C lo li = x)) ∧
+    (icLookX C tl c1 p1 c2 p2 = .raise ↔
+      IcUnresolved C tl c1 p1 c2 p2 ∨
+      ∃ i1 q1 i2 q2 lo li, IcEnds C tl c1 p1 c2 p2 i1 q1 i2 q2 ∧
+        (C.net.node i1).outPin q1 = some lo ∧ (C.net.node i2).inPin q2 = some li ∧
+        (¬ ((C.net.node (C.net.line lo).reader).isFork = true ∧ (C.net.node (C.net.line li).driver).isFork = true) ∨
+         ((C.net.line lo).reader ≠ (C.net.line li).driver ∧
+            ¬ ∃ l, BranchOK C (C.net.line lo).reader (C.net.line li).driver l) ∨
+         ((C.net.line lo).reader = (C.net.line li).driver ∧ (C.net.node (C.net.line li).driver).outs.length = 1 ∧
+            forkIn (C.net.node (C.net.line li).driver) = none))) := by
+  refine ⟨fun x hx hx' => ?_, ?_⟩
+  · rw [icLookX_eq_iff _ _ _ _ _ _ _ hx]
+    simp only [icPins_ne_warnPin_iff C _ _ _ _ x hx']
+    constructor
+    · rintro ⟨i1, q1, i2, q2, he, lo, li, h⟩; exact ⟨i1, q1, i2, q2, lo, li, he, h⟩
+    · rintro ⟨i1, q1, i2, q2, lo, li, he, h⟩; exact ⟨i1, q1, i2, q2, he, lo, li, h⟩
+  · rw [icLookX_raise_iff]
+    simp only [icPins_ne_warnPin_iff C _ _ _ _ IcExit.raise (by simp), icFork_raise_iff]
+    constructor
+    · rintro (h | ⟨i1, q1, i2, q2, he, lo, li, h⟩)
+      · exact Or.inl h
+      · exact Or.inr ⟨i1, q1, i2, q2, lo, li, he, h⟩
+    · rintro (h | ⟨i1, q1, i2, q2, lo, li, he, h⟩)
+      · exact Or.inl h
+      · exact Or.inr ⟨i1, q1, i2, q2, he, lo, li, h⟩
+
+/-- **none is lost, array level**: an INTERCONNECT entry of the file whose values are not all zero and that HAS a place in the
+circuit (`IcPlace`, for the names as the loop prepares them: split at `/`, backslashes removed) stands in the result of
+`interconnects` on that line (`hpost`: no later entry annotates the same line — the last one wins, by design). -/
+theorem interconnect_not_lost_circuit (C : NNet) (hwf : C.wf = true) (tl : PinIdx) (df : DelayFile) (pre post : List Entry)
+    (e : Entry) (l d : Nat) (ip op : Bool)
+    (hsplit : icEntries df = some (pre ++ e :: post))
+    (hnz : ∃ v ∈ norm e.r ++ norm e.f, v ≠ 0)
+    (hplace : IcPlace C tl (stripBackslash (splitSlash e.a).1) (splitSlash e.a).2
+                (stripBackslash (splitSlash e.b).1) (splitSlash e.b).2 l)
+    (hd : d < 3)
+    (hpost : ∀ e' ∈ post, ∀ w, icWrite (icLineOf C tl) e' = some w → w.line ≠ l) :
+    (interconnects (icLineOf C tl) df).map (fun A => A d l ip op) = some ((norm (if op then e.f else e.r)).getD d 0) :=
+  interconnect_lands_circuit C tl df pre post e l d ip op hsplit hnz
+    ((interconnect_lookup_iff C hwf tl _ _ _ _ l).mpr hplace) hd hpost
+
+/-- … and in the result of the function with its raises (`interconnectsC`), whenever that is an array -/
+theorem interconnect_not_lost_circuitC (C : NNet) (hwf : C.wf = true) (tl : PinIdx) (df : DelayFile) (pre post : List Entry)
+    (e : Entry) (l d : Nat) (ip op : Bool) (A : Arr)
+    (hA : interconnectsC C tl df = some A)
+    (hsplit : icEntries df = some (pre ++ e :: post))
+    (hnz : ∃ v ∈ norm e.r ++ norm e.f, v ≠ 0)
+    (hplace : IcPlace C tl (stripBackslash (splitSlash e.a).1) (splitSlash e.a).2
+                (stripBackslash (splitSlash e.b).1) (splitSlash e.b).2 l)
+    (hd : d < 3)
+    (hpost : ∀ e' ∈ post, ∀ w, icWrite (icLineOf C tl) e' = some w → w.line ≠ l) :
+    A d l ip op = (norm (if op then e.f else e.r)).getD d 0 := by
+  have h := interconnect_not_lost_circuit C hwf tl df pre post e l d ip op hsplit hnz hplace hd hpost
+  have hA' : interconnects (icLineOf C tl) df = some A := by
+    unfold interconnectsC at hA
+    rw [hsplit] at hA
+    simp only at hA
+    split at hA
+    · exact hA
+    · cases hA
+  rw [hA'] at h
+  simpa using h
+
+/-- a place can only be missed by raising or warning: with the place, neither happens -/
+theorem interconnect_place_no_warn (C : NNet) (hwf : C.wf = true) (tl : PinIdx) (c1 : String) (p1 : Option String) (c2 : String)
+    (p2 : Option String) (l : Nat) (h : IcPlace C tl c1 p1 c2 p2 l) :
+    icLookX C tl c1 p1 c2 p2 = .line l :=
+  (icLookX_line_iff C tl c1 p1 c2 p2 l).mpr ((interconnect_lookup_iff C hwf tl c1 p1 c2 p2 l).mpr h)
+
 /-- a circuit `a -> u1 (INV_X1) -> n -> u2 (INV_X1) -> z` with signal forks (no branch forks), as `dump_net` exports it -/
 def exCirc : NNet :=
   { net := { nodes := #[⟨"input", [], [some 0]⟩, ⟨"__fork__", [some 0], [some 1]⟩, ⟨"INV_X1", [some 1], [some 2]⟩,
@@ -616,6 +764,55 @@ example : (interconnects (icLineOf exCirc exTl)
         (fun A => A 0 2 false true) = some (-1) :=
   interconnect_lands_circuit exCirc exTl _ [] [] ⟨"u1/ZN", "u2/I", [0, 0, 0], [-1, 5, 5]⟩ 2 0 false true
     (by decide +kernel) ⟨-1, by decide, by decide⟩ (by decide +kernel) (by decide) (by simp)
+/-- fan-out with branch forks (`verilog.parse(branchforks=True)`): `a -> u1 -> n -> {u2 -> z1, u3 -> z2}`; node 3 is the
+signal fork of `n`, nodes 4 and 5 its branch forks -/
+def exFan : NNet :=
+  { net := { nodes := #[⟨"input", [], [some 0]⟩, ⟨"__fork__", [some 0], [some 1]⟩, ⟨"INV_X1", [some 1], [some 2]⟩,
+                        ⟨"__fork__", [some 2], [some 3, some 4]⟩, ⟨"__fork__", [some 3], [some 5]⟩, ⟨"__fork__", [some 4], [some 6]⟩,
+                        ⟨"INV_X1", [some 5], [some 7]⟩, ⟨"INV_X1", [some 6], [some 8]⟩,
+                        ⟨"__fork__", [some 7], [some 9]⟩, ⟨"__fork__", [some 8], [some 10]⟩,
+                        ⟨"output", [some 9], []⟩, ⟨"output", [some 10], []⟩],
+             lines := #[⟨0, 0, 1, 0⟩, ⟨1, 0, 2, 0⟩, ⟨2, 0, 3, 0⟩, ⟨3, 0, 4, 0⟩, ⟨3, 1, 5, 0⟩, ⟨4, 0, 6, 0⟩, ⟨5, 0, 7, 0⟩,
+                        ⟨6, 0, 8, 0⟩, ⟨7, 0, 9, 0⟩, ⟨8, 0, 10, 0⟩, ⟨9, 0, 11, 0⟩],
+             io := [0, 10, 11] },
+    names := #["a", "a", "u1", "n", "n~0", "n~1", "u2", "u3", "z1", "z2", "z1", "z2"] }
+/-- the same netlist without branch forks (`branchforks=False`): the signal fork of `n` has two readers -/
+def exFanNB : NNet :=
+  { net := { nodes := #[⟨"input", [], [some 0]⟩, ⟨"__fork__", [some 0], [some 1]⟩, ⟨"INV_X1", [some 1], [some 2]⟩,
+                        ⟨"__fork__", [some 2], [some 3, some 4]⟩,
+                        ⟨"INV_X1", [some 3], [some 5]⟩, ⟨"INV_X1", [some 4], [some 6]⟩,
+                        ⟨"__fork__", [some 5], [some 7]⟩, ⟨"__fork__", [some 6], [some 8]⟩,
+                        ⟨"output", [some 7], []⟩, ⟨"output", [some 8], []⟩],
+             lines := #[⟨0, 0, 1, 0⟩, ⟨1, 0, 2, 0⟩, ⟨2, 0, 3, 0⟩, ⟨3, 0, 4, 0⟩, ⟨3, 1, 5, 0⟩, ⟨4, 0, 6, 0⟩, ⟨5, 0, 7, 0⟩,
+                        ⟨6, 0, 8, 0⟩, ⟨7, 0, 9, 0⟩],
+             io := [0, 8, 9] },
+    names := #["a", "a", "u1", "n", "u2", "u3", "z1", "z2", "z1", "z2"] }
+
+/-- the hypotheses of `interconnect_lookup_exits` hold for all three example circuits -/
+example : exCirc.wf = true ∧ icStructOKB exCirc = true ∧ exFan.wf = true ∧ icStructOKB exFan = true
+    ∧ exFanNB.wf = true ∧ icStructOKB exFanNB = true := by decide +kernel
+/-- all four exits occur: branch-fork answers (lines 3 and 4), sole-line answer (line 0), "No branchfork" on the netlist without
+branch forks, open pin (the port `a` as destination: an `input` node has no input pin), raise for a connection that does not exist, for an
+unknown cell and for an unknown pin -/
+example : icLookX exFan exTl "u1" (some "ZN") "u2" (some "I") = .line 3 ∧ icLookX exFan exTl "u1" (some "ZN") "u3" (some "I") = .line 4
+    ∧ icLookX exFan exTl "a" none "u1" (some "I") = .line 0
+    ∧ icLookX exFanNB exTl "u1" (some "ZN") "u2" (some "I") = .warnNoBranch
+    ∧ icLookX exFan exTl "u1" (some "ZN") "a" none = .warnPin
+    ∧ icLookX exFan exTl "u2" (some "ZN") "u3" (some "I") = .raise
+    ∧ icLookX exFan exTl "u9" none "u3" (some "I") = .raise
+    ∧ icLookX exFan exTl "u1" (some "Q") "u3" (some "I") = .raise := by decide +kernel
+/-- the place of `u1/ZN -> u3/I` in `exFan` is line 4 (hypothesis of `interconnect_lookup_complete`, stated directly) -/
+example : IcPlace exFan exTl "u1" (some "ZN") "u3" (some "I") 4 :=
+  ⟨2, 7, 0, 0, 2, 6, by decide +kernel, by decide +kernel, by decide +kernel, by decide +kernel, by decide +kernel,
+    by decide +kernel, by decide +kernel, by decide +kernel, by decide +kernel, by decide +kernel, by decide +kernel,
+    by decide +kernel, Or.inr ⟨by decide +kernel, by decide +kernel⟩⟩
+/-- `interconnect_not_lost_circuit` on the fan-out circuit: the negative value of the entry for the second branch lands on line 4 -/
+example : (interconnects (icLineOf exFan exTl)
+      (parse .merge [⟨[], [[⟨"u1/ZN", "u3/I", [[some 0, some 0, some 0], [some (-1), some 5, some 5]]⟩]]⟩])).map
+        (fun A => A 0 4 false true) = some (-1) :=
+  interconnect_not_lost_circuit exFan (by decide +kernel) exTl _ [] [] ⟨"u1/ZN", "u3/I", [0, 0, 0], [-1, 5, 5]⟩ 4 0 false true
+    (by decide +kernel) ⟨-1, by decide, by decide⟩
+    ((interconnect_lookup_iff exFan (by decide +kernel) exTl _ _ _ _ 4).mp (by decide +kernel)) (by decide) (by simp)
 end circuit
 
 /-! ## text level: the grammar of `sdf.py` (Model/SdfText.lean) -/
